@@ -451,7 +451,7 @@ func RunC20(r *core.Run) {
 		rr := core.NewRand(r.Seed, 0xC20, 2, uint64(idx))
 		var b []byte
 		n := rr.Range(0, 4)
-		b = append(b, rr.Bytes(rr.Intn(40), []byte("abcxyz-_@0123456789. :[]"))...)
+		b = append(b, rr.Bytes(rr.Intn(40), []byte("abcxyz-_@0123456789. :[]\xb0\xb5\xb9\x80\xff"))...)
 		for i := 0; i < n; i++ {
 			switch rr.Intn(4) {
 			case 0:
@@ -463,7 +463,7 @@ func RunC20(r *core.Run) {
 			default:
 				b = append(b, fmt.Sprintf("%d.%d..%d.%d.%d", rr.Intn(256), rr.Intn(256), rr.Intn(256), rr.Intn(256), rr.Intn(256))...)
 			}
-			b = append(b, rr.Bytes(rr.Intn(30), []byte("abcxyz-_@0123456789. "))...)
+			b = append(b, rr.Bytes(rr.Intn(30), []byte("abcxyz-_@0123456789. \xb1\xb7\xae\xfe"))...)
 		}
 		if len(b) > 300 {
 			b = b[:300]
@@ -474,6 +474,48 @@ func RunC20(r *core.Run) {
 		if w.WantSample("random-embedded") {
 			w.Sample("random-embedded", string(b))
 		}
+	})
+	// 8-bit bytes next to / instead of digits (exhaustive over a small alphabet)
+	es8 := NewEnum("1.\xb2\x80x", int(r.Pick(9, 10)))
+	st = r.Stage("enum-8bit", es8.Size(), func(w *core.Worker, idx int64) {
+		s := sc(w)
+		s.buf = es8.appendStr(s.buf[:0], idx)
+		checkIP4(w, s.buf)
+		if bytes.Count(s.buf, []byte(".")) >= 3 {
+			w.NontrivialEnum()
+		}
+	})
+	st.Exhaustive = true
+	st.Space = es8.Desc()
+	// many dots / long texts: the address sits behind hundreds of dotted non-address tokens,
+	// or at a large offset of a text longer than 64 KiB
+	r.Stage("many-dots-and-long-texts", r.Pick(3000, 60000), func(w *core.Worker, idx int64) {
+		rr := core.NewRand(r.Seed, 0xC20, 4, uint64(idx))
+		var b []byte
+		switch idx % 3 {
+		case 0: // k dotted junk tokens then an address
+			k := []int{250, 252, 253, 254, 255, 256, 257, 258, 509, 510, 511, 512, 513, 765, 1021}[rr.Intn(15)] + rr.Intn(2)*rr.Intn(4)
+			for i := 0; i < k; i++ {
+				b = append(b, []string{"a.", "x9.", "zz.", "-."}[rr.Intn(4)]...)
+			}
+			b = append(b, "q"...)
+			if rr.Intn(4) > 0 {
+				b = append(b, fmt.Sprintf("%d.%d.%d.%d", rr.Intn(256), rr.Intn(256), rr.Intn(256), rr.Intn(256))...)
+			}
+			b = append(b, "tail"...)
+		case 1: // address at a large offset
+			n := []int{65530, 65536, 65537, 70001, 131072, 131089, 140000}[rr.Intn(7)]
+			b = make([]byte, 0, n+40)
+			for len(b) < n {
+				b = append(b, "abcdefgh-xyz_"[len(b)%13])
+			}
+			b = append(b, fmt.Sprintf("%d.%d.%d.%d", rr.Intn(256), rr.Intn(256), rr.Intn(256), rr.Intn(256))...)
+			b = append(b, "-end"...)
+		default: // long digit/dot soup
+			b = rr.Bytes(rr.Range(300, 3000), []byte("0123456789..x"))
+		}
+		checkIP4(w, b)
+		w.Nontrivial(core.HashBytes(b))
 	})
 	r.Require("C20 texts with an address", r.Counter("addresses_found"), 10000)
 }
